@@ -56,6 +56,20 @@ class NotExc(BaseException):
     pass
 
 
+class _ConstHashMeta(type):
+    """distinct, unequal classes with EQUAL hashes: parameter tuples that differ only in them collide in hash"""
+    def __hash__(cls):
+        return 7
+
+
+class CollideA(Exception, metaclass=_ConstHashMeta):
+    pass
+
+
+class CollideB(Exception, metaclass=_ConstHashMeta):
+    pass
+
+
 _W = None
 
 
@@ -79,12 +93,12 @@ def world():
     w.classes = [SENTINEL, BeartypeDoorHintViolation, BeartypeCallHintParamViolation, BeartypeCallHintReturnViolation,
                  RuntimeError, TypeError, ValueError, AttributeError, Exception, Warning, UserWarning, DeprecationWarning,
                  BeartypeClawDecorWarning, UserExc, UserWarn, NotExc, BaseException, int, str, bool, complex, float, object,
-                 BeartypeConfParamException]
+                 BeartypeConfParamException, CollideA, CollideB]
     w.tower = {float: Pep484TowerFloat, complex: Pep484TowerComplex}
     w.unpassed = ARG_VALUE_UNPASSED
     w.ov_others = [complex, int, str, FakeBool, float]        # non-tower override targets, by ==
     w.item_others = [b'the vacancy', 1, 2.5, None, ('a',)]     # non-str collection items, by ==
-    w.rests = [{}, {bool: FakeBool}, {1: int}, {int: []}, {str: int, bytes: str}, {'a': int, 'b.c': str}]   # FrozenDict minus float/complex keys, by ==
+    w.rests = [{}, {bool: FakeBool}, {1: int}, {int: []}, {str: int, bytes: str}, {'a': int, 'b.c': str}, {int: CollideA}, {int: CollideB}]   # FrozenDict minus float/complex keys, by ==
     w.dicts = [{}, {int: str}, {float: complex}, {'a': 1}]
     w.objs = [object(), 2.5, float('nan'), b'bytes', (i for i in ()), len, Ellipsis]
     FD = FrozenDict
@@ -105,7 +119,7 @@ def world():
         FD({}), FD({bool: FakeBool}), FD({float: Pep484TowerFloat}), FD({float: complex}), FD({complex: int}),
         FD({float: None}), FD({1: int}), FD({True: int}), FD({int: []}), FD({complex: Pep484TowerComplex, bool: FakeBool}),
         FD({float: Pep484TowerFloat, complex: Pep484TowerComplex}), FD({str: int, bytes: str}), FD({float: 0, str: int, bytes: str}),
-        {}, {int: str}, {float: complex}, FD({'a': int, 'b.c': str}), {'a': 1},
+        {}, {int: str}, {float: complex}, FD({'a': int, 'b.c': str}), {'a': 1}, FD({int: CollideA}), FD({int: CollideB}),
         # anything else
         *w.objs,
     ]
